@@ -397,6 +397,8 @@ pub fn gen_sentence(rng: &mut Rng, d: &DictSrc, cfg: &GenCfg, max_parts: usize) 
                 }
             }
             7 if cfg.nul_in_sentence => s.push('\0'),
+            // characters above U+FFFF whose low 16 bits are a space, an ideographic space or a letter
+            8 if rng.chance(1, 4) => s.push(*rng.pick(&['\u{10020}', '\u{13000}', '\u{10061}', '\u{2F800}'])),
             _ => s.push(*rng.pick(ALPHA)),
         }
     }
